@@ -19,6 +19,12 @@ fn exec_line(line: &str, out: &mut Out) -> Option<()> {
     let args: Vec<&str> = it.collect();
     match op {
         "tnew" | "tenc" => suites::token::exec(op, &args, out),
+        "door" => suites::parse::exec(op, &args, out),
+        "ftok" | "acc" | "wtt" | "wlt" => suites::tokens::exec(op, &args, out),
+        "get" | "rr" | "rf" | "rt" | "ri" | "rti" | "ru" | "rb" | "spat" => suites::slice::exec(op, &args, out),
+        "pfx" => suites::prefix::exec(op, &args, out),
+        "buf" => suites::buf::exec(op, &args, out),
+        "idx" | "flen" => suites::index::exec(op, &args, out),
         _ => None,
     }
 }
@@ -37,6 +43,12 @@ fn main() {
             let mut emit = |s: String| sink.line(&s);
             match suite {
                 "token" => suites::token::gen(tier, &mut rng, &mut emit),
+                "parse" => suites::parse::gen(tier, &mut rng, &mut emit),
+                "tokens" => suites::tokens::gen(tier, &mut rng, &mut emit),
+                "slice" => suites::slice::gen(tier, &mut rng, &mut emit),
+                "prefix" => suites::prefix::gen(tier, &mut rng, &mut emit),
+                "buf" => suites::buf::gen(tier, &mut rng, &mut emit),
+                "index" => suites::index::gen(tier, &mut rng, &mut emit),
                 _ => {
                     eprintln!("unknown suite {suite}");
                     std::process::exit(2);
